@@ -68,6 +68,25 @@ every other instance of its class, a BaseException that is not an Exception (fal
 of BaseExceptions, falsy), a falsy NoResultError subclass (EXC_KINDS).  `exc_shared`: the very same exception object is
 raised by every execution of the case that raises that kind (object reuse).  What was raised is logged (`raised`).
 
+WHAT KIND OF CALLABLE a task is registered with is part of the case (`fn` of a task spec; absent = an `async def`, or a
+plain `def` when `sync`) - FN_KINDS:
+  * the work is done inside the call of the registered callable (ordinary events `task_start` / `task_end`):
+    `async_wraps_sync` / `async_wraps_async` (a functools.wraps decorator whose wrapper is `async def` around a plain /
+    a coroutine function), `partial_async` / `partial_sync` (a functools.partial object over a coroutine / plain
+    function, made registrable with functools.update_wrapper), `callable_sync` (an instance of a class with a plain
+    `__call__`);
+  * the registered callable is NOT a coroutine function for asyncio.iscoroutinefunction but hands back an awaitable in
+    which the real work would be done: `sync_wraps_async` (a coroutine function under a decorator that is not
+    async-aware: `def wrapper(*a, **kw): return fn(*a, **kw)`), `ret_coro` / `ret_awaitable` / `ret_future` (a plain
+    `def` returning a coroutine / an object with `__await__` / an asyncio.Future that already holds the outcome),
+    `callable_async` (an instance whose `__call__` is `async def`), `async_ret_coro` (a coroutine function whose result
+    is the un-awaited coroutine of the real work).  The call of the registered callable is the task
+    function (`task_start`, `returns_awaitable`, `task_end return`); whatever runs of the awaitable logs `inner_start`
+    (with, per dependency value it was given, whether that dependency was already finalised), `inner_end`,
+    `inner_raised` - whoever awaits it, whenever; the Future logs `future_awaited` / `future_raised` when its outcome is
+    taken out by an await.  The driver awaits none of them: what is left un-awaited when the
+    case is over is closed (a coroutine that never started runs no code).
+
 HOW a node / a task function comes by its Context, its message and its broker is part of the case (`src` of a node or
 task spec that has `ctx`; absent = the Context as a cached dependency, `ctx: Context = TaskiqDepends()`):
   * {"kind": "ctx", "cached": false}: `ctx: Context = TaskiqDepends(use_cache=False)` - the resolver does not take it from
@@ -89,8 +108,11 @@ import asyncio
 import contextlib
 import contextvars
 import dataclasses
+import functools
+import inspect
 import json
 import random
+import re
 import sys
 import types
 from concurrent.futures import ThreadPoolExecutor
@@ -353,6 +375,9 @@ class Run:
         self.broker = None
         self.sending = set()    # executions whose delivery is being handed to the broker's real kick()
         self.shared_excs = {}   # kind -> the one exception object of that kind (`exc_shared`)
+        self.closed_toks = set()  # tokens of the dependencies whose teardown has completed
+        self.awaitables = []    # what the registered callables of the `fn` kinds handed back
+        self.loop = None
 
     def ev(self, *a):
         self.log.append(list(a))
@@ -619,6 +644,7 @@ def h_close(node, tok, saw, ctx=None):
 
 
 def h_closed(node, tok):
+    R.closed_toks.add(tok)
     R.ev("closed", EXEC.get(), node, tok)
 
 
@@ -690,7 +716,8 @@ def h_body_sync(t, tok, kw, ctx, vals, pv=NOPV):
     return h_finish(e, R.plan(e), payload)
 
 
-def h_finish(e, plan, payload):
+def plan_exc(plan, payload):
+    """(outcome, the object to raise or None) the plan asks of the task's own code"""
     o = plan.get("outcome", "return")
     exc = None
     if o != "return" and plan.get("exc"):
@@ -703,11 +730,150 @@ def h_finish(e, plan, payload):
         exc = BodyBase(payload)
     elif o == "noresult":
         exc = NoResultError()
+    return o, exc
+
+
+def h_finish(e, plan, payload):
+    o, exc = plan_exc(plan, payload)
     R.ev("task_end", e, o)
     if exc is None:
         return payload
     R.ev("raised", e, type(exc).__name__, "task")
     raise exc
+
+
+# --------------------------------------------------------------------------- task callables of other kinds (`fn`)
+# kinds whose registered callable does the work inside its own call (ordinary task_start / task_end events) ...
+FN_INLINE = ("async_wraps_sync", "async_wraps_async", "partial_async", "partial_sync", "callable_sync")
+# ... and kinds whose registered callable is not a coroutine function for asyncio but hands back an awaitable
+FN_AWAITABLE = ("sync_wraps_async", "ret_coro", "ret_awaitable", "ret_future", "callable_async", "async_ret_coro")
+FN_KINDS = FN_INLINE + FN_AWAITABLE
+# kinds that never need the thread pool (awaited on the loop by run_task)
+FN_ON_LOOP = ("async_wraps_sync", "async_wraps_async", "partial_async", "async_ret_coro")
+
+
+class Lazy:
+    """an awaitable that is neither a coroutine nor a Future: an object with __await__ (the work starts when awaited)"""
+
+    def __init__(self, coro):
+        self.coro = coro
+
+    def __await__(self):
+        return self.coro.__await__()
+
+
+class HeldFuture(asyncio.Future):
+    """an asyncio.Future that already holds the outcome of the task; says when somebody takes the outcome out by
+    awaiting it (nothing of the task's code runs then)"""
+
+    verif = None        # (run, execution, outcome, class name of the held exception or None)
+
+    def __await__(self):
+        run, e, o, cls = self.verif
+        if R is run:
+            who = EXEC.get()
+            R.ev("future_awaited", e if who is None else who, o)
+            if cls is not None:
+                R.ev("future_raised", e if who is None else who, cls)
+        return (yield from super().__await__())
+
+    __iter__ = __await__
+
+
+async def h_inner(t, tok, kw, ctx, vals, pv=NOPV):
+    """the real work of a task whose registered callable only hands back an awaitable.  Runs when (if ever) somebody
+    awaits that awaitable; says what it finds: which of the dependency values it holds are already finalised."""
+    e = EXEC.get()
+    plan = R.plan(e)
+    payload = {"arg": tok, "kw": kw, "echo": echo(ctx), "task": t}
+
+    def state():
+        return [[v[0], bool(v[1] in R.closed_toks)] for v in vals if isinstance(v, list) and len(v) == 2]
+
+    R.ev("inner_start", e, t, state())
+    try:
+        for d in plan.get("dur") or []:
+            await asyncio.sleep(d / 1_000_000)
+    except asyncio.CancelledError:
+        R.ev("inner_end", e, "cancelled", state())
+        raise
+    o, exc = plan_exc(plan, payload)
+    R.ev("inner_end", e, o, state())
+    if exc is None:
+        return payload
+    R.ev("inner_raised", e, type(exc).__name__)
+    raise exc
+
+
+def h_outer(kind, t, tok, kw, ctx, vals, pv=NOPV, aw=None):
+    """the call of a registered callable that hands back an awaitable: this call IS the task function for the framework
+    (it is not a coroutine function).  Nothing of the awaitable runs here."""
+    e = EXEC.get()
+    payload = {"arg": tok, "kw": kw, "echo": echo(ctx), "task": t}
+    if pv is not NOPV:
+        payload["pv"] = jsonable(pv)
+    R.ev("task_start", e, t, payload, vals)
+    if aw is None:
+        if kind == "ret_future":
+            # an asyncio.Future that already holds the outcome (nothing is left to run; made in the worker thread,
+            # no callbacks yet, so nothing of the loop is touched)
+            aw = HeldFuture(loop=R.loop)
+            o, exc = plan_exc(R.plan(e), payload)
+            if exc is None:
+                aw.set_result(payload)
+            else:
+                aw.set_exception(exc)
+            aw.verif = (R, e, o, None if exc is None else type(exc).__name__)
+            R.ev("future_holds", e, o, None if exc is None else type(exc).__name__)
+        else:
+            aw = h_inner(t, tok, kw, ctx, vals, pv)
+            if kind == "ret_awaitable":
+                aw = Lazy(aw)
+    R.awaitables.append(aw)
+    R.ev("returns_awaitable", e, kind, type(aw).__name__)
+    R.ev("task_end", e, "return")
+    return aw
+
+
+def h_outer_wrapped(kind, t, fn, args, kwargs):
+    """the same for a wrapper that only knows *args / **kwargs (a decorator that is not async-aware): the coroutine
+    function `fn` is called - which runs nothing of it - and its coroutine handed back"""
+    a = inspect.signature(fn).bind(*args, **kwargs).arguments
+    vals = [a[k] for k in sorted((k for k in a if k[:1] == "d" and k[1:].isdigit()), key=lambda k: int(k[1:]))]
+    return h_outer(kind, t, a["tok"], a.get("kw", -1), h_view(a.get("ctx")), vals, a.get("pv", NOPV), aw=fn(*args, **kwargs))
+
+
+def not_async_aware(kind, t):
+    """a decorator as they are written by people who have plain functions in mind"""
+    def deco(fn):
+        @functools.wraps(fn)
+        def wrapper(*args, **kwargs):
+            return h_outer_wrapped(kind, t, fn, args, kwargs)
+        return wrapper
+    return deco
+
+
+def async_aware(fn):
+    """a decorator whose wrapper is a coroutine function, around a plain or a coroutine function"""
+    @functools.wraps(fn)
+    async def wrapper(*args, **kwargs):
+        res = fn(*args, **kwargs)
+        if inspect.isawaitable(res):
+            res = await res
+        return res
+    return wrapper
+
+
+def settle_awaitables(run):
+    """after the case: what nobody awaited is closed (a coroutine that never started runs no code when it is closed); a
+    Future's stored exception is marked as looked at"""
+    for aw in run.awaitables:
+        co = aw.coro if isinstance(aw, Lazy) else aw
+        if isinstance(co, asyncio.Future):
+            if co.done() and not co.cancelled():
+                co.exception()
+        elif inspect.iscoroutine(co):
+            co.close()
 
 
 # --------------------------------------------------------------------------- generated code
@@ -788,11 +954,48 @@ def task_src(t, spec):
         vals.append("d%d" % j)
     cx = ("h_view(ctx)" if spec.get("src") else "ctx") if spec.get("ctx") else "None"
     pv = ", pv" if spec.get("val") else ""
+    fn = spec.get("fn")
+    if fn is not None:
+        return fn_src(t, fn, params, "%d, tok, kw, %s, [%s]%s" % (t, cx, ", ".join(vals), pv))
     if spec.get("sync"):
         return "def task_%d(%s):\n    return h_body_sync(%d, tok, kw, %s, [%s]%s)\n" % (
             t, ", ".join(params), t, cx, ", ".join(vals), pv)
     return "async def task_%d(%s):\n    return await h_body(%d, tok, kw, %s, [%s]%s)\n" % (
         t, ", ".join(params), t, cx, ", ".join(vals), pv)
+
+
+def fn_src(t, fn, params, call):
+    """source of task_<t> for the callable kind `fn` (see the module docstring); same parameters as the ordinary forms"""
+    sig = ", ".join(params)
+    if fn == "async_wraps_sync":
+        return "@async_aware\ndef task_%d(%s):\n    return h_body_sync(%s)\n" % (t, sig, call)
+    if fn == "async_wraps_async":
+        return "@async_aware\nasync def task_%d(%s):\n    return await h_body(%s)\n" % (t, sig, call)
+    if fn == "sync_wraps_async":
+        return "@not_async_aware('%s', %d)\nasync def task_%d(%s):\n    return await h_inner(%s)\n" % (fn, t, t, sig, call)
+    if fn in ("ret_coro", "ret_awaitable", "ret_future"):
+        return "def task_%d(%s):\n    return h_outer('%s', %s)\n" % (t, sig, fn, call)
+    if fn == "async_ret_coro":
+        # a coroutine function whose RESULT is another awaitable (it hands the coroutine of the real work back un-awaited)
+        return "async def task_%d(%s):\n    return h_outer('%s', %s)\n" % (t, sig, fn, call)
+    if fn in ("partial_async", "partial_sync"):
+        # a partial object has no type hints of its own for the resolver to read (it looks at `__call__`): what `ctx` is
+        # to be (Context / TaskiqMessage / AsyncBroker) is named explicitly instead of through the annotation
+        sig2 = re.sub(r"ctx: (\w+) = TaskiqDepends\(", r"ctx: \1 = TaskiqDepends(\1, ", ", ".join(params + ["bound: int = 0"]))
+        body = ("async def base_%d(%s):\n    return await h_body(%s)\n" if fn == "partial_async" else
+                "def base_%d(%s):\n    return h_body_sync(%s)\n") % (t, sig2, call)
+        return body + "task_%d = functools.update_wrapper(functools.partial(base_%d, bound=7), base_%d)\n" % (t, t, t)
+    if fn in ("callable_sync", "callable_async"):
+        sig3 = ", ".join(["self"] + params)
+        head = ("class Job_%d:\n    attempts: int = 0\n\n    def __init__(self):\n        self.__name__ = 'job_%d'\n\n" % (t, t))
+        if fn == "callable_sync":
+            meth = "    def __call__(%s):\n        return h_body_sync(%s)\n" % (sig3, call)
+        else:
+            # `async def __call__`: asyncio.iscoroutinefunction(instance) is False, the call hands back the coroutine
+            meth = ("    @not_async_aware('%s', %d)\n    async def __call__(%s):\n        return await h_inner(%s)\n"
+                    % (fn, t, sig3, call))
+        return head + meth + "task_%d = Job_%d()\n" % (t, t)
+    raise ValueError(fn)
 
 
 # --------------------------------------------------------------------------- recording collaborators
@@ -814,7 +1017,11 @@ def payload_of(err):
 def summarize(result):
     err = result.error
     rv = result.return_value
-    return {"is_err": bool(result.is_err), "ret": rv if isinstance(rv, (dict, type(None))) else repr(rv)[:80],
+    if inspect.isawaitable(rv):
+        ret = "<awaitable %s>" % type(rv).__name__      # no addresses in an observation
+    else:
+        ret = rv if isinstance(rv, (dict, type(None))) else repr(rv)[:80]
+    return {"is_err": bool(result.is_err), "ret": ret,
             "err": None if err is None else type(err).__name__,
             "err_payload": payload_of(err),
             "who": result.labels.get("who") if isinstance(result.labels, dict) else None,
@@ -883,7 +1090,8 @@ def _run_case(case):
     ns.update(TaskiqMessage=TaskiqMessage, AsyncBroker=AsyncBroker, h_view=h_view, h_prov=h_prov, h_pick=h_pick)
     ns.update(UserCfg=UserCfg, Context=Context, TaskiqDepends=TaskiqDepends, contextlib=contextlib, h_enter=h_enter, h_fail=h_fail,
               h_pause=h_pause, h_ready=h_ready, h_close=h_close, h_closed=h_closed, h_val=h_val, h_body=h_body,
-              h_body_sync=h_body_sync)
+              h_body_sync=h_body_sync, h_inner=h_inner, h_outer=h_outer, not_async_aware=not_async_aware,
+              async_aware=async_aware, functools=functools)
     ns.update({"ANN_" + k: a for k, a in ANNS.items()})
     run = R
 
@@ -1132,8 +1340,12 @@ def _run_case(case):
 
     loop = Loop(0)
     asyncio.set_event_loop(loop)
+    R.loop = loop
     try:
-        loop.run_until_complete(main(loop))
+        try:
+            loop.run_until_complete(main(loop))
+        finally:
+            settle_awaitables(R)
         subs = {id(s) for c in R.ctxs for s in c.sub_contexts}
         trees = [tree_of(c) for c in R.ctxs if id(c) not in subs]
         log = list(R.log)
